@@ -472,19 +472,19 @@ def r6_bookkeeping(ctx):
                     if isinstance(v, ast.Name):
                         for _, dv in astx.defs_of(f.node, v.id):
                             if dv is not None:
-                                recorded[N.key(elect.flatten_base(dv))] = fld
-                    recorded[N.key(elect.flatten_base(v))] = fld
+                                recorded[N.key(elect.flatten_base(dv, f.node))] = fld
+                    recorded[N.key(elect.flatten_base(v, f.node))] = fld
         for r in (n for n in astx.walk_own(f.node) if isinstance(n, ast.Return)):
             if isinstance(r.value, ast.Tuple):
                 for el in r.value.elts:
-                    recorded.setdefault(N.key(elect.flatten_base(el)), "returned component")
+                    recorded.setdefault(N.key(elect.flatten_base(el, f.node)), "returned component")
         rc_f = prog.find_func("remove_cand")
         for c in rcs:
             N_sites += 1
             b = astx.bind_args(c, rc_f.params)
             x = b.get(rc_f.params[0])
             x = _singleton_pick_base(prog, f, x)
-            k = N.key(elect.flatten_base(x))
+            k = N.key(elect.flatten_base(x, f.node))
             if k in recorded:
                 ctx.ok(f, c, f"removed candidates = recorded {recorded[k]}", f"remove_cand({astx.u(x)[:60]}, ...) ; recorded from `{k}`")
             else:
@@ -493,7 +493,7 @@ def r6_bookkeeping(ctx):
         # STV-style candidate tuple: set(profile.candidates).difference(<flatten(X)>) must use the same X
         for d in astx.calls_in(f.node, "difference"):
             if isinstance(d.func, ast.Attribute) and "candidates" in astx.u(d.func.value) and d.args:
-                k = N.key(elect.flatten_base(d.args[0]))
+                k = N.key(elect.flatten_base(d.args[0], f.node))
                 ctx.check(k in recorded, f, d, "remaining candidate tuple = previous candidates minus the recorded group",
                           f"difference({k})", f"candidates removed from the tuple (`{k}`) are not the recorded group {sorted(recorded)}")
     ctx.note(f"R6 examined {N_sites} remove_cand sites in rule classes")
